@@ -334,6 +334,14 @@ def run(w) -> None:
             if bad in keys:
                 w.violation("C20/non-representable-argument-listed/" + bad, "the message lists {} (a class/function/method/module/builtin)".format(bad), case,
                             {"parts": parts})
+        for part in parts:
+            key, vstr = exprs.split_part_with_candidates(part, candidates)
+            # a name or an attribute (no call, no subscript) must never be shown with the representation of a routine, a class or a
+            # module (which carries a memory address, different in every process)
+            if "(" not in key and "[" not in key:
+                w.count("filtered_argument_checks")
+                if vstr.startswith(("<method-wrapper", "<built-in method", "<bound method", "<function ", "<slot wrapper", "<method '", "<class '", "<module '")):
+                    w.violation("C20/routine-or-class-listed", "the message lists `{} was {}`".format(key, vstr[:80]), case, {"parts": parts})
         for key in keys:
             # names which only the builtins module provides (functions, classes and constants such as NotImplemented, Ellipsis, __debug__)
             if key.isidentifier() and hasattr(builtins, key) and key not in it["params"] and key not in ("result", "OLD", "self"):
